@@ -93,11 +93,17 @@ class FortranPythonTransformation(Transformation):
         for c in FindInlineCalls(unique=False).visit(routine.ir):
             if c.function == 'sign':
                 assert len(c.parameters) == 2
+                # SIGN(a, b) is |a| with the sign of b, and b == 0 counts as positive
                 sign = sym.InlineCall(
-                    function=sym.ProcedureSymbol(name='np.sign', scope=routine),
-                    parameters=(c.parameters[1],)
+                    function=sym.ProcedureSymbol(name='np.where', scope=routine),
+                    parameters=(sym.Comparison(c.parameters[1], '>=', sym.IntLiteral(0)),
+                                sym.IntLiteral(1), sym.Product((-1, sym.IntLiteral(1))))
                 )
-                sign_map[c] = sym.Product((c.parameters[0], sign))
+                magnitude = sym.InlineCall(
+                    function=sym.ProcedureSymbol(name='abs', scope=routine),
+                    parameters=(c.parameters[0],)
+                )
+                sign_map[c] = sym.Product((magnitude, sign))
 
         routine.spec = SubstituteExpressions(sign_map).visit(routine.spec)
         routine.body = SubstituteExpressions(sign_map).visit(routine.body)
